@@ -37,9 +37,10 @@ OutKind(k) == IF IsType(k) THEN "type" ELSE IF k = "lt" THEN "lifetime" ELSE "co
 VARIABLES recv, via, params, wh, other, acc, done
 vars == <<recv, via, params, wh, other, acc, done>>
 
-Init == /\ recv \in Receivers /\ via \in {"direct", "member"}
+\* "rmember": the member is declared as darling::Result<Generics<..>> - it holds the outcome, the receiver never fails because of it
+Init == /\ recv \in Receivers /\ via \in {"direct", "member", "rmember"}
         /\ wh \in BOOLEAN
-        /\ other \in (IF via = "member" THEN BOOLEAN ELSE {FALSE})     \* a mistake in the receiver's own attribute
+        /\ other \in (IF via # "direct" THEN BOOLEAN ELSE {FALSE})     \* a mistake in the receiver's own attribute
         /\ params = <<>> /\ done = FALSE
         /\ acc = [ok |-> TRUE, out |-> <<>>, nerr |-> 0, at |-> 0]
 
@@ -54,7 +55,7 @@ Next == (\E k \in Kinds : Push(k)) \/ Finish
 Spec == Init /\ [][Next]_vars
 
 \* the receiver as a whole: the attribute layer first, the parameters only when it is clean
-TotalErrors == IF other THEN 1 ELSE acc.nerr
+TotalErrors == IF other THEN 1 ELSE IF via = "rmember" THEN 0 ELSE acc.nerr
 
 BadIdx == {i \in 1..Len(params) : Mistakes(recv, params[i]) > 0}
 Min(S) == CHOOSE x \in S : \A y \in S : x <= y
@@ -71,7 +72,7 @@ Gen_Infallible == (done /\ recv # "derived") => acc.ok
 
 EmitDone == (done /\ EMIT) =>
   Emit("REPLAY", [recv |-> recv, via |-> via, params |-> params, wh |-> wh, other |-> other,
-                  expect |-> [ok |-> BadIdx = {} /\ ~other, kinds |-> [i \in 1..Len(params) |-> OutKind(params[i])], types |-> TypeIdx,
+                  expect |-> [ok |-> (BadIdx = {} \/ via = "rmember") /\ ~other, inner_ok |-> BadIdx = {}, kinds |-> [i \in 1..Len(params) |-> OutKind(params[i])], types |-> TypeIdx,
                               bad |-> SelectSeq([i \in 1..Len(params) |-> i], LAMBDA i : Mistakes(recv, params[i]) > 0), other |-> other],
-                  model |-> [ok |-> acc.ok /\ ~other, nerr |-> TotalErrors, at |-> IF other THEN 0 ELSE acc.at]])
+                  model |-> [ok |-> (acc.ok \/ via = "rmember") /\ ~other, nerr |-> TotalErrors, at |-> IF other THEN 0 ELSE acc.at]])
 =============================================================================
